@@ -1358,7 +1358,15 @@ func (a *Agent) addCandidate(ctx context.Context, cand Candidate, candidateConn 
 		return err
 	}
 
-	return a.loop.Run(ctx, func(context.Context) {
+	var taskErr error
+	if err := a.loop.Run(ctx, func(context.Context) {
+		// The gathering cycle can be canceled (by Restart) while this task
+		// waits for the loop: a candidate of a superseded cycle must not be
+		// added to the new generation. Callers release it on error.
+		if taskErr = ctx.Err(); taskErr != nil {
+			return
+		}
+
 		set := a.localCandidates[cand.NetworkType()]
 		for _, candidate := range set {
 			if candidate.Equal(cand) {
@@ -1391,7 +1399,11 @@ func (a *Agent) addCandidate(ctx context.Context, cand Candidate, candidateConn 
 		if !cand.filterForLocationTracking() {
 			a.candidateNotifier.EnqueueCandidate(cand)
 		}
-	})
+	}); err != nil {
+		return err
+	}
+
+	return taskErr
 }
 
 func (a *Agent) setCandidateExtensions(cand Candidate) {
